@@ -351,6 +351,70 @@ theorem classes_bounds_any_anchor (cfg : Config) (hp : PlainPrintNA cfg) (env : 
     | nil => exact htne rfl
     | cons a r => simp [atomsOf] at this
 
+/-- **validity for every anchor setting**: whatever expression `RegExp::from` keeps, the text it returns is accepted by
+the model of `Regex::new` — for every non-empty list of test cases (no other hypothesis on them than the segmentation
+contract), every subset of the class options, with or without capturing groups, `-e`, `-i`, any anchors -/
+theorem classes_valid_any_anchor (cfg : Config) (hp : PlainPrintNA cfg) (env : Env) (ws : List Str) (st : Stages)
+    (h : regExpFrom cfg env ws = .ok st) (hseg : ∀ w ∈ storedCases cfg env ws, SegOK env w) (hws : ws ≠ []) :
+    ∃ P, Spec.parse (fmtRegExp cfg st.finalAst) = some (⟨cfg.ci, false⟩, P) := by
+  have hthree := from_final_three cfg env ws st h
+  obtain ⟨h1, h2, h3, h4, h5⟩ := from_stages_shape cfg env ws st h
+  change st.sorted = sortCases (storedCases cfg env ws) at h1
+  have hws1 : storedCases cfg env ws ≠ [] := by
+    unfold storedCases lowerCases
+    split <;> simpa using hws
+  generalize storedCases cfg env ws = ws1 at h1 hseg hws1
+  have hseg' : ∀ w ∈ sortCases ws1, SegOK env w := fun w hw => hseg w ((sortCases_mem' ws1 w).mp hw)
+  obtain ⟨f, hcl, hpl⟩ := clusters_atoms cfg hp.rep env (sortCases ws1) hseg'
+  rw [← h1, ← h2] at hcl
+  generalize hcls : st.clusters = cls at *
+  have hclP : ∀ cl ∈ cls, PlainBs cl := by
+    intro cl hc
+    rw [hcl] at hc
+    obtain ⟨w, hw, rfl⟩ := List.mem_map.mp hc
+    exact (hpl w (by rw [← h1]; exact hw)).1
+  have hsimple : ∀ cl ∈ cls, ∀ g ∈ cl, g.Simple := by
+    intro cl hc g hg
+    obtain ⟨x, _, _, rfl⟩ := hclP cl hc g hg
+    exact ofStr_simple _
+  have hPl : ∀ cl ∈ cls, ∀ g ∈ cl, (fun g => PlainBs [g]) g := by
+    intro cl hc g hg g' hg'
+    simp only [List.mem_singleton] at hg'
+    subst hg'
+    exact hclP cl hc g' hg
+  have hwf : st.finalAst.WF := by
+    rcases hthree with hf | hf | hf
+    · obtain ⟨m, hm, hacc, hlab, hdfs, hN, hacyc⟩ := Grexv.min_struct cls hsimple (fun g => PlainBs [g]) hPl
+      rw [← h3, h4] at hm
+      simp only [Option.some.injEq] at hm
+      subst hm
+      rw [hf, ofDfa_congr (c1 := cfg) (c2 := cfgPlain cfg.cap cfg.esc) rfl _]
+      exact ofDfa_wf cfg.cap cfg.esc st.minimized hlab hdfs hacyc
+    · have ht := (Dfa.trie_tree_alpha cls hsimple).1
+      have hlab : LabelsBs (Dfa.trie cls) := trie_labels (fun g => PlainBs [g]) cls hsimple hPl
+      have hdfs := dfsOK_of_bounded (Dfa.trie cls) (by rw [ht.init0]; exact ht.pos) (fun e he => (ht.lt e he).2)
+      rw [hf, h3, ofDfa_congr (c1 := cfg) (c2 := cfgPlain cfg.cap cfg.esc) rfl _]
+      exact ofDfa_wf cfg.cap cfg.esc (Dfa.trie cls) hlab hdfs (trie_acyclic_paths cls hsimple)
+    · rw [hf]
+      apply wf_newAlternation
+      · intro e he
+        obtain ⟨c, hc, rfl⟩ := List.mem_map.mp he
+        exact hclP c hc
+      · intro hc
+        have hcn : cls = [] := by simpa using hc
+        rw [hcn] at hcl
+        have hs0 : st.sorted = [] := by simpa using hcl.symm
+        rw [h1] at hs0
+        cases hw : ws1 with
+        | nil => exact hws1 hw
+        | cons a r =>
+          have : a ∈ sortCases ws1 := (sortCases_mem' ws1 a).mpr (by rw [hw]; exact List.mem_cons_self)
+          rw [hs0] at this
+          cases this
+  rw [fmtRegExp_plainNA_eq cfg hp]
+  exact ⟨_, parse_ci_prefixG _ _ (flags_printedA cfg.cap cfg.esc cfg.noStart cfg.noEnd _ hwf)
+    (parse_printedA cfg.cap cfg.esc cfg.noStart cfg.noEnd _ hwf) cfg.ci⟩
+
 /-- the same settings with `-e` switched on / off -/
 def withEsc (cfg : Config) (b : Bool) : Config := { cfg with esc := b }
 
